@@ -11,9 +11,10 @@ CONSTANTS
   VALS = {}
   NEST = FALSE
   PAIRS = FALSE
+  INTF = {}
   PATLEN = 2
   INLEN = 2
   ELEMKINDS = {"v", "k", "l2", "le", "lbe", "ld", "lde"}
   INKINDS = {"1", "k", "l2", "ll", "d3"}
-INVARIANTS InDomain SynErrSilent GlobalsSuffixed HEmit
+INVARIANTS InDomain SynErrSilent GlobalsSuffixed IntfConsistent HEmit
 CHECK_DEADLOCK FALSE
